@@ -1383,6 +1383,29 @@ theorem C06_gen_prepro (e : Env) (c : Con) (g : GOut) (h : genOverload e c = som
   | _ => simp [genOverload] at h
 
 
+/-- **generated tie, `converter_model.h`**: `is_fixed`, `is_binary_var`, `common_type` (loop with early exit) and the four array helpers
+`lb_array`, `lb_max_array`, `ub_array`, `ub_min_array` (range-for accumulations) translated from the source equal the hand model's functions
+for all environments, variables and argument lists — so `C06_min`, `C06_max`, `C06_ifthen`, `C06_and/or`, the binary-variable reuse of
+conditional equalities and the history theorem speak about the translated helpers. -/
+theorem C06_gen_model_helpers (e : Env) (v : Nat) (va : List Nat) :
+    isFixed e v = MpVerif.Gen.C06.CM.isFixed e v ∧ isBinaryVar e v = MpVerif.Gen.C06.CM.isBinaryVar e v ∧
+    commonType e va = MpVerif.Gen.C06.CM.commonType e va ∧
+    lbArray e va = MpVerif.Gen.C06.CM.lbArray e va ∧ lbMaxArray e va = MpVerif.Gen.C06.CM.lbMaxArray e va ∧
+    ubArray e va = MpVerif.Gen.C06.CM.ubArray e va ∧ ubMinArray e va = MpVerif.Gen.C06.CM.ubMinArray e va := by
+  refine ⟨rfl, ?_, ?_, rfl, rfl, rfl, rfl⟩
+  · simp only [isBinaryVar, MpVerif.Gen.C06.CM.isBinaryVar, MpVerif.Gen.C06.CM.isIntegerVar, MpVerif.Gen.C06.CM.isFixed,
+      MpVerif.Gen.C06.CM.fixedValue, isFixed]
+    cases (e v).int <;> simp
+  · simp only [commonType, MpVerif.Gen.C06.CM.commonType, MpVerif.Gen.C06.CM.isIntegerVar, MpVerif.Gen.C06.CM.isFixed,
+      MpVerif.Gen.C06.CM.fixedValue, isFixed]
+    have hq : ∀ v, ((!(true == (e v).int)) && ((!(ER.eq (e v).lb (e v).ub)) || (!(ER.isInteger (e v).lb)))) =
+        !((e v).int || (ER.eq (e v).lb (e v).ub && ER.isInteger (e v).lb)) := by
+      intro v
+      cases (e v).int <;> cases ER.eq (e v).lb (e v).ub <;> cases ER.isInteger (e v).lb <;> rfl
+    simp only [hq]
+    rw [List.all_eq_not_any_not]
+    cases (va.any fun v => !((e v).int || (ER.eq (e v).lb (e v).ub && ER.isInteger (e v).lb))) <;> rfl
+
 /-- constraint types the model has a preprocessing rule for (`prepro` arms; PL has no rule in the source either: empty overload) -/
 def modelOverloadTypes : List String := ["ConditionalConstraint<AlgebraicConstraint<Body, AlgConRhs<kind>>>", "mp::AbsConstraint", "mp::AcosConstraint", "mp::AcoshConstraint", "mp::AllDiffConstraint", "mp::AndConstraint", "mp::AsinConstraint", "mp::AsinhConstraint", "mp::AtanConstraint", "mp::AtanhConstraint", "mp::CondLinConEQ", "mp::CondQuadConEQ", "mp::CosConstraint", "mp::CoshConstraint", "mp::CountConstraint", "mp::DivConstraint", "mp::ExpAConstraint", "mp::ExpConstraint", "mp::IfThenConstraint", "mp::ImplicationConstraint", "mp::LinearFunctionalConstraint", "mp::LogAConstraint", "mp::LogConstraint", "mp::MaxConstraint", "mp::MinConstraint", "mp::NotConstraint", "mp::NumberofConstConstraint", "mp::NumberofVarConstraint", "mp::OrConstraint", "mp::PLConstraint", "mp::PowConstraint", "mp::QuadraticFunctionalConstraint", "mp::SinConstraint", "mp::SinhConstraint", "mp::TanConstraint", "mp::TanhConstraint"]
 
@@ -1559,7 +1582,7 @@ theorem resultVar_bounds (s : State) (r : Res) (hwf : s.WF) (hb : BoundsSound tr
 /-- constraint kinds for which the per-kind soundness theorems above exist (conditional (in)equalities, `log`/`log_a`
 (argument narrowing), negative / fractional exponents are NOT covered) -/
 def CoveredBase : Con → Prop
-  | .pow _ p => p.den = 1 ∧ 0 ≤ p
+  | .pow _ p => p.den = 1
   | .min as => as ≠ []
   | .max as => as ≠ []
   | .nvar as => as ≠ []
@@ -1573,6 +1596,9 @@ def CoveredBase : Con → Prop
 def Adm (e : Env) : Con → Prop
   | .and as => ∀ a ∈ as, isBinaryVar e a = true
   | .or as => ∀ a ∈ as, isBinaryVar e a = true
+  /- a negative exponent: either `lb < 0` (the code infers nothing) or `lb > 0` (the expression is defined on the whole box);
+     `lb = 0` is excluded because `0^(−k)` has no value -/
+  | .pow a p => p < 0 → (lt (e a).lb (fin 0) = true ∨ lt (fin 0) (e a).lb = true)
   | _ => True
 
 /-- the interpretation of the transcendental functions respects the constant ranges the code assigns (proved for the real
@@ -1603,17 +1629,43 @@ theorem prepro_sound (e : Env) (c : Con) (val : Val) (hcov : CoveredBase c) (had
   | lin c0 ts => obtain ⟨pre, hp, hc⟩ := C06_lin tr trp e val hf c0 ts; rw [hp]; exact ⟨hc, rfl⟩
   | quad c0 ts qs => obtain ⟨pre, hp, hc⟩ := C06_quad tr trp e val hf c0 ts qs; rw [hp]; exact ⟨hc, rfl⟩
   | pow a p =>
-    obtain ⟨k, rfl⟩ := nat_of_rat hcov.1 hcov.2
-    show DecisionSound tr trp (preproPow e a (k : Rat)) _ val
-    rcases Nat.lt_or_ge k 2 with hk | hk
-    · have hk01 : k = 0 ∨ k = 1 := by omega
-      rcases hk01 with rfl | rfl
-      · obtain ⟨⟨pre, hp, hc, _⟩, _⟩ := C06_pow_01 tr trp e val a
-        simp only [Nat.cast_zero]; rw [hp]; exact ⟨hc, rfl⟩
-      · obtain ⟨_, hp, hc⟩ := C06_pow_01 tr trp e val a
-        simp only [Nat.cast_one]; rw [hp]; exact hc
-    · obtain ⟨pre, hp, hc⟩ := C06_pow_nat tr trp e val hf a k hk
-      rw [hp]; exact ⟨hc, rfl⟩
+    by_cases hp0 : 0 ≤ p
+    · obtain ⟨k, rfl⟩ := nat_of_rat hcov hp0
+      show DecisionSound tr trp (preproPow e a (k : Rat)) _ val
+      rcases Nat.lt_or_ge k 2 with hk | hk
+      · have hk01 : k = 0 ∨ k = 1 := by omega
+        rcases hk01 with rfl | rfl
+        · obtain ⟨⟨pre, hp, hc, _⟩, _⟩ := C06_pow_01 tr trp e val a
+          simp only [Nat.cast_zero]; rw [hp]; exact ⟨hc, rfl⟩
+        · obtain ⟨_, hp, hc⟩ := C06_pow_01 tr trp e val a
+          simp only [Nat.cast_one]; rw [hp]; exact hc
+      · obtain ⟨pre, hp, hc⟩ := C06_pow_nat tr trp e val hf a k hk
+        rw [hp]; exact ⟨hc, rfl⟩
+    · -- negative integer exponent
+      have hneg : p < 0 := not_le.mp hp0
+      have hden : p.den = 1 := hcov
+      obtain ⟨k, hk⟩ := nat_of_rat (p := -p) (by simpa using hden) (by linarith)
+      have hpk : p = -(k : Rat) := by linarith
+      have hk1 : 1 ≤ k := by
+        rcases Nat.eq_zero_or_pos k with h0 | h0
+        · subst h0; simp at hpk; linarith
+        · exact h0
+      subst hpk
+      show DecisionSound tr trp (preproPow e a (-(k : Rat))) _ val
+      rcases hadm hneg with hlb | hlb
+      · -- lb < 0: nothing is inferred
+        have h0 : ¬ (-(k : Rat) = 0) := by linarith
+        have h1 : ¬ (-(k : Rat) = 1) := by linarith
+        have : preproPow e a (-(k : Rat)) = .keep {} (.pow a (-(k : Rat))) := by
+          simp [preproPow, h0, h1, hneg, hlb]
+        rw [this]; exact ⟨default_contains _, rfl⟩
+      · -- lb > 0: the argument cannot be 0
+        have hx0 : val a ≠ 0 := by
+          obtain ⟨hl, _, _⟩ := hf a
+          cases hlbv : (e a).lb <;> simp_all [ER.lt, lbOK]
+          linarith
+        obtain ⟨pre, hp, hc⟩ := C06_pow_neg tr trp e val hf a k hk1 hx0
+        rw [hp]; exact ⟨hc, rfl⟩
   | min as => obtain ⟨pre, hp, hc⟩ := C06_min tr trp e val hf as hcov; rw [hp]; exact ⟨hc, rfl⟩
   | max as => obtain ⟨pre, hp, hc⟩ := C06_max tr trp e val hf as hcov; rw [hp]; exact ⟨hc, rfl⟩
   | and as => exact C06_and tr trp e val hf as hadm
@@ -2141,7 +2193,7 @@ theorem qineq_dec (o : Opts) (e : Env) (val : Val) (hf : Feasible e val) (kind :
 /-- constraint kinds covered by the assign-level and history theorems: everything the model handles except `log` / `log_a` (argument
 narrowing) and negative / fractional exponents -/
 def Covered : Con → Prop
-  | .pow _ p => p.den = 1 ∧ 0 ≤ p
+  | .pow _ p => p.den = 1
   | .min as => as ≠ []
   | .max as => as ≠ []
   | .nvar as => as ≠ []
@@ -2507,11 +2559,11 @@ theorem trRange_const_one : TrRange (fun _ _ => 1) (fun _ _ _ => 1) := by
   · intro p x
     exact fresh_range_sound' _ _ _ (Or.inr (by simp [lbOK])) (Or.inr (by simp [ubOK]))
 
-/-- the history theorem applies to a non-trivial history: from x0 ∈ [7,9], x1 = −2 the operations `abs(x1)` (redirect to a constant →
+/-- the history theorem applies to a non-trivial history: from x0 ∈ [7,9], x1 = −2 the operations `x0^(−2)` (negative exponent, lb > 0), `abs(x1)` (redirect to a constant →
 fixed variable), `2·x0 + x2` (new variable), `max(x0, x3)`, `exp(x4)`, the strict comparison `−x0 > 17/2` (not normalised: redirected to
 `x0 < −17/2`) and the equality `2·x1 == 4`: all recorded bounds of the reachable state are sound -/
 example : BoundsSound (fun _ _ => 1) (fun _ _ _ => 1)
-    (runOps exAbsState [.abs 1, .lin 0 [(2, 0), (1, 2)], .max [0, 3], .un .exp 4, .clin 2 (17 / 2) [(-1, 0)], .clin 0 4 [(2, 1)]]) := by
+    (runOps exAbsState [.pow 0 (-2), .abs 1, .lin 0 [(2, 0), (1, 3)], .max [0, 4], .un .exp 5, .clin 2 (17 / 2) [(-1, 0)], .clin 0 4 [(2, 1)]]) := by
   have hinit : BoundsSound (fun _ _ => 1) (fun _ _ _ => 1) exAbsState :=
     C06_initial_sound _ _ exAbsState (fun i => by
       by_cases h : i < 2
@@ -2520,7 +2572,7 @@ example : BoundsSound (fun _ _ => 1) (fun _ _ _ => 1)
       · exact getD_ge _ _ _ (by simp [exAbsState]; omega))
   have hwf : exAbsState.WF := by simp [State.WF, exAbsState]
   refine (C06_history_sound _ _ trRange_const_one _ exAbsState hwf hinit ?_).1
-  exact ⟨trivial, trivial, trivial, trivial, by simp [Covered], trivial, by simp [Covered], trivial,
-    by simp [Covered, KindOK], trivial, by simp [Covered, KindOK], trivial, trivial⟩
+  exact ⟨by simp [Covered], fun _ => Or.inr (by decide +kernel), trivial, trivial, trivial, trivial, by simp [Covered], trivial,
+    by simp [Covered], trivial, by simp [Covered, KindOK], trivial, by simp [Covered, KindOK], trivial, trivial⟩
 
 end MpVerif.C06
